@@ -34,13 +34,21 @@ TRIAGED_SUB = {
 }
 
 
-def check(ctx):
+def _check_own(ctx):
     prog = ctx.prog
     R = Roles(prog)
     check_bucket_count(ctx, prog, R)
     check_buf_params(ctx, prog, R)
     check_buf_amount(ctx, prog, R)
     check_unsigned_sub(ctx, prog, R)
+
+
+def check(ctx):
+    _check_own(ctx)
+    from .engine import import_rules
+    # the bucket count is a tuning parameter: the bucket / bitmap scan must be right for every table size, not only for
+    # the sizes whose bitmap is a whole number of 64-bucket words
+    import_rules(ctx, "c04", {"scan-compensation", "layout-agreement"})
 
 
 def _user_fns_only(hits):
